@@ -273,6 +273,15 @@ func (g *Gen) Core() [][]Case {
 			}
 		}
 		blocks = append(blocks, b)
+		// partially signed multisig transfers must not be charged
+		var ps []Case
+		for _, c := range g.MultisigMatrix() {
+			if strings.Contains(c.Kind, "/prefix") || strings.Contains(c.Kind, "/full/") || strings.Contains(c.Kind, "/nosigs") {
+				ps = append(ps, c)
+			}
+		}
+		blocks = append(blocks, ps)
+		blocks = append(blocks, g.SignerNotInMsg())
 	case "c16":
 		// every re-encoding class of an executed transfer: in the same block, in the next block
 		for _, cl := range Reencodings() {
@@ -307,6 +316,13 @@ func (g *Gen) Core() [][]Case {
 			mk("send-by-multisig", chain.MsgSend(AddrOf(ro.Multi.Pub()), ro.Rich[1].Addr, 11), ro.Multi, eq, "equal"),
 			mk("send-by-multisig-misordered", chain.MsgSend(AddrOf(ro.Multi.Pub()), ro.Rich[1].Addr, 11), ro.MultiIn, eq, "equal"),
 		})
+		blocks = append(blocks, g.SignerNotInMsg())
+		mm := g.MultisigMatrix()
+		for len(mm) > 0 {
+			k := min(8, len(mm))
+			blocks = append(blocks, mm[:k])
+			mm = mm[k:]
+		}
 	}
 	return blocks
 }
@@ -318,4 +334,95 @@ func (g *Gen) StrangerSend() Case {
 	fee := sdk.Coins{sdk.Coin{Denom: "upokt", Amount: sdk.NewInt(g.reqFor(chain.MsgSend(g.Ro.Rich[1].Addr, g.Ro.Rich[2].Addr, 777)))}}
 	return Case{Kind: "core-send/stranger/good/fee-equal", Variant: "-",
 		Raw: Build(TxSpec{Msg: chain.MsgSend(g.Ro.Rich[1].Addr, g.Ro.Rich[2].Addr, 777), Fee: fee, Entropy: g.entropy, SignChain: g.ChainID, By: Single{g.Ro.Rich[0]}})}
+}
+
+// MultisigMatrix: for every funded multisig account (2, 3, 4 keys) a transfer out of it carrying each
+// signature layout: all members in order; all members reversed; every strict prefix; every single
+// omission; a non-member's signature at each position; an extra signature; member 0's signature
+// duplicated at every position; one empty slot; no signature at all.  Only the first may change state.
+func (g *Gen) MultisigMatrix() []Case {
+	ro := g.Ro
+	var out []Case
+	for _, m := range ro.Multis {
+		n := len(m.Members)
+		full := func() []Slot {
+			var s []Slot
+			for i := 0; i < n; i++ {
+				s = append(s, Slot{Member: i})
+			}
+			return s
+		}
+		type lay struct {
+			name  string
+			slots []Slot
+		}
+		lays := []lay{{"full", full()}}
+		rev := full()
+		for i, j := 0, n-1; i < j; i, j = i+1, j-1 {
+			rev[i], rev[j] = rev[j], rev[i]
+		}
+		lays = append(lays, lay{"reversed", rev})
+		for k := 1; k < n; k++ {
+			lays = append(lays, lay{fmt.Sprintf("prefix%d", k), full()[:k]})
+		}
+		for j := 0; j < n; j++ {
+			s := full()
+			lays = append(lays, lay{fmt.Sprintf("omit%d", j), append(s[:j:j], s[j+1:]...)})
+		}
+		for j := 0; j < n; j++ {
+			s := full()
+			s[j] = Slot{Wrong: true}
+			lays = append(lays, lay{fmt.Sprintf("wrongkey%d", j), s})
+		}
+		lays = append(lays, lay{"extra", append(full(), Slot{Member: 0})})
+		dup := full()
+		for j := range dup {
+			dup[j] = Slot{Member: 0}
+		}
+		lays = append(lays, lay{"duplicated", dup})
+		es := full()
+		es[n-1] = Slot{Empty: true}
+		lays = append(lays, lay{"emptyslot", es}, lay{"nosigs", nil})
+		from := AddrOf(m.Pub())
+		for _, l := range lays {
+			g.entropy++
+			msg := chain.MsgSend(from, ro.Rich[1].Addr, 9)
+			fee := sdk.Coins{sdk.Coin{Denom: "upokt", Amount: sdk.NewInt(g.reqFor(msg))}}
+			c := Case{Kind: fmt.Sprintf("core-multisig%d/%s/good/fee-equal", n, l.name), Variant: "-",
+				Raw: Build(TxSpec{Msg: msg, Fee: fee, Entropy: g.entropy, SignChain: g.ChainID,
+					By: MultiLayout{Members: m.Members, Slots: l.slots, Stranger: Single{ro.Rich[0]}}})}
+			g.Sent = append(g.Sent, c)
+			out = append(out, c)
+		}
+	}
+	return out
+}
+
+// SignerNotInMsg: authenticated transactions whose verifying key is NOT one of Msg.GetSigners() —
+// an output-address edit signed by the node's current output address (the message names operator and
+// NEW output), for a funded and for an underfunded operator, and an application transfer signed by
+// the current application (the message names only the new key, here a funded plain account).  The
+// fee must come from the account of the key that signed.  Operator, old output, new output, old app
+// and new key are distinct accounts with distinct balances.  The edits are undone by the new
+// output address, which is again not a declared signer.
+func (g *Gen) SignerNotInMsg() []Case {
+	ro := g.Ro
+	mk := func(name string, msg sdk.ProtoMsg, by chain.Key) Case {
+		g.entropy++
+		fee := sdk.Coins{sdk.Coin{Denom: "upokt", Amount: sdk.NewInt(g.reqFor(msg))}}
+		c := Case{Kind: "core-" + name + "/alt/good/fee-equal", Variant: "-",
+			Raw: Build(TxSpec{Msg: msg, Fee: fee, Entropy: g.entropy, SignChain: g.ChainID, By: Single{by}})}
+		g.Sent = append(g.Sent, c)
+		return c
+	}
+	edit := func(node chain.Key, out sdk.Address) sdk.ProtoMsg {
+		return chain.MsgNodeStake(node, NCStake, []string{chain.ChainHash}, "https://edit.example:443", out, nil)
+	}
+	return []Case{
+		mk("outputedit-by-current-output", edit(ro.NodeNC, ro.Out3.Addr), ro.Out),
+		mk("outputedit-back-by-current-output", edit(ro.NodeNC, ro.Out.Addr), ro.Out3),
+		mk("outputedit-lowoperator-by-current-output", edit(ro.NodeLow, ro.Out3.Addr), ro.Out2),
+		mk("outputedit-lowoperator-back", edit(ro.NodeLow, ro.Out2.Addr), ro.Out3),
+		mk("apptransfer-to-funded-key-by-app", &appsTypes.MsgStake{PubKey: ro.NewApp.Pub, Chains: nil, Value: sdk.ZeroInt()}, ro.App2),
+	}
 }
